@@ -846,6 +846,7 @@ fn is_hex(s: &str) -> bool {
 
 /// Execute ONE request line on the real code.
 pub fn exec(op: &str) -> String {
+    let _crumb = crate::common::crumb::guard(op);
     let w: Vec<&str> = op.split(' ').filter(|x| !x.is_empty()).collect();
     match w.as_slice() {
         ["wire", "new"] => "ok".into(),
